@@ -205,7 +205,18 @@ def run_sharded(exe, case_lines, workdir, tag):
             for line in case_lines[i::n]:
                 o.write(line + "\n")
         files.append(p)
-    procs = [subprocess.Popen([exe, p], stdout=open(p + ".out", "w"), stderr=subprocess.DEVNULL) for p in files]
+    # the results are functions of the case alone: every second shard runs in a different process environment
+    # (time zone, locale, colour conventions), so a dependence on it shows as a disagreement with the model / oracle
+    def shard_env(i):
+        env = dict(os.environ)
+        if os.environ.get("VERIF_SHARD_ENV"):      # a replay runs its one case under each variant in turn
+            i = int(os.environ["VERIF_SHARD_ENV"])
+        if i % 2 == 1:
+            env.update({"TZ": "America/Los_Angeles", "LANG": "ja_JP.UTF-8", "LC_ALL": "C", "NO_COLOR": "1", "CLICOLOR": "0", "TERM": "dumb"})
+        elif i % 4 == 2:
+            env.update({"TZ": "Asia/Tokyo", "CLICOLOR_FORCE": "1", "COLORTERM": "truecolor", "FORCE_COLOR": "3"})
+        return env
+    procs = [subprocess.Popen([exe, p], stdout=open(p + ".out", "w"), stderr=subprocess.DEVNULL, env=shard_env(i)) for i, p in enumerate(files)]
     rcs = [p.wait() for p in procs]
     res = {}
     for p, rc in zip(files, rcs):
